@@ -1,7 +1,7 @@
 """Replay for C09: real actors built with __new__ and a recording send; concrete probes of the failure / cancellation forwarding chain."""
 import types
 
-from common import done, load
+from common import done, load, probe_exception
 
 
 def mk(cls):
@@ -163,7 +163,7 @@ def main(rec):
         try:
             v = f()
         except Exception as ex:  # noqa
-            v = f"{f.__name__} raised {type(ex).__name__}: {ex}"
+            v = probe_exception(f, ex)
         if v:
             done(True, v)
     done(False, "probes pass for " + rec.get("obligation", ""))
